@@ -194,6 +194,11 @@ class Ctx:
         # on every re-execution and do not count as branching
         t_ok = self.engine.feasible(self, cond)
         f_ok = self.engine.feasible(self, z3.Not(cond))
+        if t_ok and f_ok and self.bound:
+            # about to branch on an arbitrary element of a comprehension / set-building loop: try once more with the
+            # instances of the universally quantified path facts at the bound constants
+            t_ok = self.engine.feasible(self, cond, with_instances=True)
+            f_ok = self.engine.feasible(self, z3.Not(cond), with_instances=True)
         if t_ok and not f_ok:
             self.pc.append(cond)
             return True
@@ -322,14 +327,14 @@ class Engine:
 
         return ["%s: %s" % kv for kv in sorted(libmodel.ASSUMED.items())]
 
-    def feasible(self, ctx: Ctx, cond) -> bool:
+    def feasible(self, ctx: Ctx, cond, with_instances: bool = False) -> bool:
         """Path pruning only (an over-approximation is sound): quantifier-free part of the path condition."""
         qf = [p for p in ctx.pc if not has_quantifier(p)]
-        if ctx.bound:
+        if ctx.bound and with_instances:
             # inside a comprehension / set-building loop: instances of the universally quantified facts of the path
             # condition at the bound constants (sound: instances of assumptions), so that preconditions stated over all
             # elements of a sequence decide branches on the arbitrary element
-            for p in ctx.pc:
+            for p in ctx.pc[:getattr(ctx, "entry_len", 0)]:  # preconditions and class invariants only
                 if z3.is_quantifier(p) and p.is_forall() and p.num_vars() == 1:
                     for bc in ctx.bound:
                         if bc.sort() == p.var_sort(0):
@@ -798,6 +803,25 @@ class Engine:
                 return fi
         return None
 
+    def verify_lemma(self, name: str, fn) -> FunctionResult:
+        """A lemma over contracts: `fn(ctx)` builds abstract objects (ctx.fresh_kind), states its hypotheses with
+        ctx.assume and returns {label: goal}; each goal is an obligation under the class invariants / prelude only (no code
+        is executed: the lemma chains what the contracts of the code already guarantee)."""
+        res = FunctionResult("lemma:" + name)
+        ctx = Ctx(self, "lemma:" + name, [])
+        res.paths = 1
+        try:
+            goals = self.run_spec(ctx, fn, ctx)
+            ctx.spec_mode = 0
+            res.entry_pc, res.entry_axioms = list(ctx.pc), list(ctx.axioms)
+            for lab, g in (goals or {}).items():
+                ctx.oblige("lemma.%s/lemma#%s" % (name, lab), lift_bool(g), kind="lemma")
+            res.normal_paths = 1
+        except EngineLimit as e:
+            res.limits.append(str(e))
+        res.obligations.extend(ctx.obligations)
+        return res
+
     def _verify_instance(self, finfo: FuncInfo, contract: Contract, cls, inst, res: FunctionResult):
         worklist: List[List[int]] = [[]]
         tagsuffix = ""
@@ -990,6 +1014,7 @@ class Engine:
         if getattr(contract, "definitions", None) is not None:
             for label, c in self.run_spec(ctx, lambda: contract.clauses("definitions", ns)):
                 ctx.assume(lift_bool(c))  # defining equation of a ghost predicate (see Contract.definitions)
+        ctx.entry_len = len(ctx.pc)
         if res is not None and res.entry_pc is None:
             res.entry_pc = list(ctx.pc)
             res.entry_axioms = list(ctx.axioms)
